@@ -24,6 +24,13 @@ def strip_wrappers(t: Term, names=("list", "tuple", "sorted")) -> Term:
     return t
 
 
+def prefix_length(t: Term) -> int | None:
+    """n when t is `islice(xs, n)` with a literal n >= 0: the first n elements of xs."""
+    if t[0] == "call" and t[1] == "islice" and len(t[2]) == 2 and t[2][1][0] == "const" and isinstance(t[2][1][1], int) and not isinstance(t[2][1][1], bool) and t[2][1][1] >= 0:
+        return t[2][1][1]
+    return None
+
+
 def is_collection(t: Term) -> bool:
     if t[0] in ("list", "tuple", "set", "dict", "comp"):
         return True
@@ -51,6 +58,14 @@ class Enc:
         t = strip_wrappers(t)
         while t[0] == "or" and len(t[1]) == 2 and t[1][1][0] in ("list", "tuple", "set", "dict") and not t[1][1][1]:
             t = strip_wrappers(t[1][0])  # `x or []`
+        n = prefix_length(t)
+        if n is not None and n <= LEN_TOP:
+            # len(islice(xs, n)) == min(len(xs), n)
+            if k < n:
+                return self.len_atom(t[2][0], k)
+            if k == n:
+                return f_or([self.len_atom(t[2][0], j) for j in range(n, LEN_TOP + 1)])
+            return ("const", False)
         return atom(f"len({self.key(t)})={k}")
 
     def truth(self, t: Term) -> Formula:
